@@ -8,7 +8,7 @@ from ..ir import strip_casts, const_of, walk, show, kids, maximal_lvalues
 from ..graph import find_path, ret_class, ev_dominates, control_deps_transitive, cond_facts
 from ..lockset import Locksets
 from .. import df
-from .common import exceptions
+from .common import exceptions, consumed
 
 EXPL = ('Lockset dataflow (must/may) over threaded_writer.c and the POSIX backend with automatically summarised lock wrappers; '
         'access rules for the message ring and the synchronous writer; publish-after-fill; typestate of the peeked message '
@@ -23,11 +23,22 @@ MSG, PROC = 'msg_mutex', 'process_mutex'
 def setup(sess, config='default'):
     P = sess.prog(config)
     L = Locksets(P)
+    L.may_acquire = {}
     for w, want in (('jls_bkt_msg_lock', [(MSG, +1)]), ('jls_bkt_msg_unlock', [(MSG, -1)]),
                     ('jls_bkt_process_lock', [(PROC, +1)]), ('jls_bkt_process_unlock', [(PROC, -1)])):
         P.fn(w)
-        if L.summaries.get(w) != want:
-            raise AnalysisBroken('lock wrapper %s summarised as %s, expected %s' % (w, L.summaries.get(w), want))
+        got = L.summaries.get(w)
+        if got == [(want[0][0], 0)] and want[0][1] > 0:
+            # the wrapper acquires on some returns only (timed / try acquisition): reported under
+            # C06.3; the callers are then analysed as if it had acquired, so that this one cause
+            # is not repeated at every access of the ring.
+            L.may_acquire[w] = want[0][0]
+            L.summaries[w] = want
+            L.results.clear()
+            L.exit_state.clear()
+            continue
+        if got != want:
+            raise AnalysisBroken('lock wrapper %s summarised as %s, expected %s' % (w, got, want))
     return P, L
 
 
@@ -59,6 +70,7 @@ def rules(ctx, P, L, exc, suffix=''):
     ctx.rule('C06.10', 'the ring never reports a full queue as empty and never hands out bytes of a message that was not popped: on every path of the ring allocator to a non-NULL return the next write index stays strictly below the read index (size + 4 < tail) or inside the ring with room for a wrap marker (size + 8 <= ring size)')
     ctx.rule('C06.11', 'nothing accepted is abandoned: the consumer leaves its drain loop only on an empty queue and examines `quit` only in the outer loop')
     ctx.rule('C06.12', 'same bytes as the synchronous call: where the synchronous entry derives the payload length from the text (strlen) instead of the caller\'s data_size, the threaded entry that queues the same call does so too before it copies the payload into the queue')
+    ctx.rule('C06.13', 'all the bits of a sample block are queued: the byte length jls_twr_fsr hands to the queue equals ceil(sample count x entry size / 8) for every accepted entry size and every count residue (set-of-constants evaluation of the length at the send)')
     ctx.rule('C06.9', 'flush tickets: flush_send_id is stored only under the message lock, flush_processed_id only under the process lock (or before the thread starts)')
 
     fns = P.fns_in(TW)
@@ -148,7 +160,15 @@ def rules(ctx, P, L, exc, suffix=''):
         ctx.saw(fn)
         must, may = L.exit_of(fn)
         wrapper = fn.name in L.summaries
-        if wrapper:
+        if fn.name in L.may_acquire or (wrapper and any(op == 0 for _, op in L.summaries[fn.name])):
+            lock = L.may_acquire.get(fn.name) or L.summaries[fn.name][0][0]
+            sites = [(g, ev) for g in scope for ev in g.calls(fn.name)]
+            unchecked = [(g, ev) for g, ev in sites if not consumed(g, ev)[0]]
+            ctx.ob('C06.3', not unchecked, fn.name, 'wrapper acquires on every return', fn.where(),
+                   'callers test the result of the conditional acquisition' if not unchecked else
+                   'may return without holding %s (timed or try acquisition) and %d of %d call sites ignore the result, e.g. %s at %s: '
+                   'the caller then touches shared state without the lock' % (lock, len(unchecked), len(sites), unchecked[0][0].name, unchecked[0][1].where()))
+        elif wrapper:
             ctx.ob('C06.3', must == may, fn.name, 'wrapper exit state', fn.where(), 'wrapper: exit must=%s may=%s' % (sorted(must), sorted(may)))
         else:
             ctx.ob('C06.3', not may, fn.name, 'locks at exit', fn.where(),
@@ -404,6 +424,7 @@ def rules(ctx, P, L, exc, suffix=''):
     from .c07 import drain_rule
     drain_rule(ctx, P, 'C06.11')
     size_agreement(ctx, P, 'C06.12')
+    sample_bytes_rule(ctx, P, 'C06.13')
 
 
 def size_agreement(ctx, P, rule):
@@ -446,3 +467,45 @@ def size_agreement(ctx, P, rule):
 def _may_precede(fn, a, b):
     w = find_path(fn, a, lambda ev, facts: 'target' if ev is b else None, refine=False)
     return w is not None
+
+
+def sample_bytes_rule(ctx, P, rule):
+    """the threaded FSR entry copies exactly the bytes that hold the caller's samples"""
+    from ..fd import values_at
+    from ..ir import path_of
+    fn = P.fn('jls_twr_fsr')
+    ctx.saw(fn)
+    sends = [c for c in fn.calls() if c.callee in ('msg_send', 'msg_send_inner')]
+    if not sends:
+        raise AnalysisBroken('jls_twr_fsr: no msg_send call')
+    # the per-signal entry size the function reads
+    size_paths = set()
+    for ev in fn.events():
+        for nd in walk(ev.e or {}):
+            if nd.get('op') == 'sub' and any(m.get('op') == 'member' and m.get('field') == 'fsr_entry_size_bits' for m in walk(nd['k'][0])):
+                p = path_of(nd) or fn.path(nd)
+                if p is not None:
+                    size_paths.add(str(p))
+    if len(size_paths) != 1:
+        raise AnalysisBroken('jls_twr_fsr: entry size read through %s' % sorted(size_paths))
+    sp = size_paths.pop()
+    count = fn.params[4]['name']
+    sig = fn.params[1]['name']
+    n = 0
+    for sd in sends:
+        bad = None
+        for bits in (1, 4, 8, 16, 24, 32, 64):
+            for cnt in list(range(0, 18)) + [255, 256, 257, 1000, 1001]:
+                vals = values_at(P, fn, sd, sd.args[3], {count: cnt, sp: bits, sig: 1})
+                want = (cnt * bits + 7) // 8
+                if vals != {want}:
+                    bad = (bits, cnt, sorted(vals, key=str), want)
+                    break
+            if bad:
+                break
+        n += 1
+        ctx.ob(rule, bad is None, fn.name, 'payload length of %s()' % sd.callee, sd.where(),
+               'ceil(count x bits / 8) for every width and every count residue' if bad is None else
+               '%d samples of %d bits occupy %d bytes, the queue receives %s: the last partial byte of a sub-byte block is %s' %
+               (bad[1], bad[0], bad[3], bad[2], 'lost' if (bad[2] and bad[2][0] is not None and bad[2][0] < bad[3]) else 'not what the caller provided'))
+    ctx.floor('msg_send sites of jls_twr_fsr', n, 2)
